@@ -248,17 +248,26 @@ def fresh_rule(rep, F, ids):
     rep.floor("coverage comparisons over the running totals", 4, n_cmp)
 
 
-def total_order(F, callee):
-    """the Self type of a `<T as PartialOrd>::op` callee is totally ordered: a primitive integer or a crate type with an Ord impl"""
+def total_order(F, callee, ga=""):
+    """the Self type of a PartialOrd comparison is totally ordered: a primitive integer or a crate type with an Ord impl.
+    Self comes from `<T as PartialOrd>::op` or, for the provided methods (std::cmp::PartialOrd::ge), from the call's generic args"""
     m = re.match(r"<(.+?) as std::cmp::PartialOrd(<.*>)?>::", callee or "")
-    if not m:
+    if m:
+        T = m.group(1)
+    else:
+        T = ([x.strip() for x in (ga or "").strip("[]").split(",") if x.strip() and not x.strip().startswith("'")] or [""])[0]
+    T = T.strip()
+    while T.startswith("&") or T.startswith("'"):
+        T = re.sub(r"^(&|'\{?\w+\}? ?|mut )", "", T).strip()
+    if not T:
         return False
-    T = m.group(1).lstrip("&").strip()
     if T in ("u8", "u16", "u32", "u64", "u128", "usize", "i8", "i16", "i32", "i64", "i128", "isize", "bool", "char"):
         return True
+    # a crate type is total when its PartialOrd is the derived (lexicographic) one next to a derived Ord; a hand-written
+    # partial_cmp (Value, MultiAsset, Assets: component-wise, None when the components disagree) is a partial order
     for im in F.impls:
-        if (im.get("trait") or "").startswith("std::cmp::Ord") and ((im.get("self_adt") or im.get("self_ty") or "") == T or (im.get("self_adt") or im.get("self_ty") or "").endswith("::" + T)):
-            return True
+        if (im.get("trait") or "").startswith("std::cmp::PartialOrd") and (im.get("self_adt") or im.get("self_ty") or "") == T:
+            return bool(im.get("derive"))
     return False
 
 
@@ -309,7 +318,7 @@ def post_gate_rule(rep, F, ids, adds):
                 continue
             # `!(actual < required)` certifies coverage only on a total order: Value is partially ordered (more lovelace, fewer
             # tokens: neither < nor >=), there only the true edge of >= (or <= swapped) is a proof
-            total = total_order(F, d["callee"])
+            total = total_order(F, d["callee"], d.get("ga", ""))
             passing = (name == "ge" and (edge != "0") != d["neg"]) or (total and name == "lt" and (edge == "0") != d["neg"])
             if not total and name == "lt" and (edge == "0") != d["neg"] and tin and tout and fee:
                 partial_note.append(d["callee"])
